@@ -18,11 +18,11 @@ Qed.
 Lemma keeps_bookkeep s o q : keeps s (hupd s o (fun r => set_ua (set_ip (set_access r (now s)) (q_addr q)) (q_ua q))).
 Proof. apply keeps_hupd. apply same_ref_data. intro r. split; reflexivity. Qed.
 
-Lemma keeps_start_finish s q o isref cks0 s' res cks : start_finish s q o isref cks0 = (s', res, cks) -> keeps s s'.
+Lemma keeps_start_finish s q k o isref cks0 s' res cks : start_finish s q k o isref cks0 = (s', res, cks) -> keeps s s'.
 Proof.
   unfold start_finish. destruct isref.
-  - destruct (follow (S (N.to_nat (supply s))) s o) as [s2 fr] eqn:EF. apply keeps_follow in EF.
-    destruct fr as [o'|e|e]; intro H; injection H as <- _ _; try exact EF.
+  - destruct (follow (S (N.to_nat (supply s))) s o k) as [s2 fr] eqn:EF. apply keeps_follow in EF.
+    destruct fr as [[o' lk']|e|e]; intro H; injection H as <- _ _; try exact EF.
     eapply keeps_trans; [exact EF | apply keeps_bookkeep].
   - intro H. injection H as <- _ _. apply keeps_bookkeep.
 Qed.
